@@ -669,6 +669,7 @@ func rulesC12(c *Ctx) {
 	c.Rule("R-C12-7", "the cancellation notice is a valid message of the protocol version in use: notifications/cancelled is always built from the request it cancels and inherits that request's _meta.protocolVersion / clientInfo / clientCapabilities (a notice without them is answered 400 by a 2026-07-28 server, which the streamable client treats as the end of the session)", func() {
 		notify := c.FnObj(pJ, "Connection", "Notify")
 		nc := c.Obj(pM, "notificationCancelled")
+		c.Must(c.P.FuncOf(c.P.LookupFuncObj(pM, "", "cancelledParams")) != nil, "cancelledParams:exists", nil, nil, "notifications/cancelled is built by cancelledParams from the request it cancels (so that it inherits the per-request _meta); the builder is gone")
 		cpf := c.Fn(pM, "", "cancelledParams")
 		n := 0
 		for _, f := range c.funcsWithLits(pM) {
